@@ -95,7 +95,15 @@ static void decoders_normalise(struct res *r) {
             else { r->validated++; r->cls[0]++; }
         }
     }
-    res_sample(r, "10 languages x {U+3000, U+00A0, U+2003 separators, full-width letters} x both decoders");
+    /* encode: the phrase handed to the caller is what the injected NFC made of the stored words (every language, three coins) */
+    { polyseed_data *sd = seed_from_ref(&s);
+      for (int li = 0; li < R_NLANG && sd; li++) for (unsigned c = 0; c < 3; c++) { unsigned coin = c == 0 ? 0 : c == 1 ? 1 : 2047; polyseed_str out; env_clear_log(); size_t n = polyseed_encode(sd, polyseed_get_lang(li), (polyseed_coin)coin, out); r->calls++; r->cases++;
+          unsigned long called = E.n_nfc; char want[2048]; size_t wn = ref_phrase(&s, li, coin, want, 0); char rep[64]; snprintf(rep, sizeof rep, "decnorm %d 9 %u", li, coin);
+          if ((n != wn || memcmp(out, want, wn + 1)) && !called) res_viol(r, "c18:normaliser-not-consulted:encode", rep, "%s phrase (coin %u) is not the composed form of the stored words and the injected NFC function was never called", RL[li].name_en, coin);
+          else if (n != wn || memcmp(out, want, wn + 1)) res_viol(r, "c18:encode-normalised", rep, "%s phrase (coin %u) differs from the reference phrase although the injected NFC function was called %lu time(s)", RL[li].name_en, coin, called);
+          else { r->validated++; r->cls[0]++; } }
+      if (sd) polyseed_free(sd); }
+    res_sample(r, "10 languages x {U+3000, U+00A0, U+2003 separators, full-width letters} x both decoders; encode in 10 languages x 3 coins");
 }
 
 int main(int argc, char **argv) {
